@@ -99,3 +99,13 @@ def skip_checks_policy(test, ev, env):
     if isinstance(test, ast.Attribute) and test.attr == "activated":
         return False
     return None
+
+
+def alias_rule(ctx, pid, rels):
+    """zero-count rule shared by the numeric properties: no in-place mutation of cached / module-level values"""
+    from . import alias
+    alias.selfcheck()
+    for rel in rels:
+        mod = core.module(rel)
+        ctx.saw(mod)
+        alias.check(ctx, pid, mod)
